@@ -2,8 +2,9 @@
    Proofs/DataSlot.v instantiated with the obligations of Proofs/DataInst.v. *)
 From Coq Require Import ZArith List String Ascii Bool Lia.
 From Hexital Require Import Base.Prelude Base.Num Model.Manager Model.Candle Model.Readings Model.Analysis
-  Model.Engine Proofs.ListProofs Proofs.EngineProofs Proofs.CausalProofs Proofs.DataSlot.
-From Hexital Require Import Proofs.CausalMore Proofs.DataInst.
+  Model.Engine Proofs.ListProofs Proofs.EngineProofs Proofs.CausalProofs.
+From Hexital Require Import Proofs.CausalMore.
+From Hexital Require Import Proofs.DataSlot Proofs.DataInst.
 Import ListNotations.
 Local Open Scope string_scope.
 Local Open Scope list_scope.
@@ -37,18 +38,18 @@ Lemma obligations (I : ind NO) (key : string) : data_node I key -> data_kind I k
        calc_reading NO (run NO (S f)) I (a ++ c :: rest) (zlen a) =
        (r <- D a c ;; Ok (fst r, a ++ slot NO (dataM NO I) c (snd r) :: rest))) /\
     (forall a d r, IsCanonD NO I (dataM NO I) (G NO I) D a -> fresh_data I d -> D a d = Ok r ->
-       is_none NO (rnd_ NO I (fst r)) = true -> D a (deco NO I (dataM NO I) d r) = Ok r).
+       D a (deco NO I (dataM NO I) d r) = Ok r).
 Proof.
   intros (Hs & Hm & Ht & Hd & Ha) Hk. destruct Hk as [[K Hkey]|[(period & input & K & Hkey & Hp & HiI & HiM)|(period & input & K & Hkey & Hp & HiI & HiM)]].
   - exists (vwapD NO I). split.
     + intros f a c rest _ Hg. eapply vwap_shape; first [eassumption | split; assumption].
-    + intros a d r _ _ Er _. unfold deco. rewrite vwapD_deco; first [exact Er | assumption | split; assumption].
+    + intros a d r _ _ Er. unfold deco. rewrite vwapD_deco; first [exact Er | assumption | split; assumption].
   - exists (stdevD NO I period input). split.
     + intros f a c rest _ Hg. eapply stdev_shape; first [eassumption | split; assumption].
-    + intros a d r _ _ Er _. unfold deco. rewrite (stdevD_deco NO I Ht (conj Hd Ha) period input Hp HiI HiM). exact Er.
+    + intros a d r _ _ Er. unfold deco. rewrite (stdevD_deco NO I Ht (conj Hd Ha) period input Hp HiI HiM). exact Er.
   - exists (rsiD NO I period input). split.
     + intros f a c rest _ Hg. eapply rsi_shape; first [eassumption | split; assumption].
-    + intros a d r _ (_ & HfM & Hg) Er Hn. unfold deco. eapply rsi_recomp; first [eassumption | split; assumption].
+    + intros a d r _ (_ & HfM & Hg) Er. unfold deco. eapply rsi_recomp; first [eassumption | split; assumption].
 Qed.
 
 Section WithNode.
@@ -91,6 +92,92 @@ Theorem data_calculate_idempotent (ds : list cd) st : Forall (fresh_data I) ds -
 Proof.
   destruct (obligations I key Hnode Hkind) as (D & Hshape & Hrec).
   eapply calculate_idempotentD with (D := D) (G := G NO I) (M := dataM NO I); eassumption.
+Qed.
+
+(* C14: recalculate() - purge() then calculate() - reproduces exactly the store it replaced,
+   readings and helper series alike *)
+Theorem data_recalculate_reproduces (ds : list cd) st : Forall (fresh_data I) ds ->
+  calculate NO I ds = Ok st -> calculate NO I (purge NO I st) = Ok st.
+Proof.
+  destruct (obligations I key Hnode Hkind) as (D & Hshape & Hrec). intros Hf H.
+  assert (Hc : IsCanonD NO I (dataM NO I) (G NO I) D st).
+  { rewrite (batch_is_canonD NO I (dataM NO I) Hs (G NO I) D Hshape ds Hf) in H.
+    eapply canonD_acc_iscanon; [constructor|exact Hf|exact H]. }
+  assert (Hm : i_managed NO I = [(key, dataM NO I)]) by exact (proj1 (proj2 Hnode)).
+  assert (Ht : i_sub NO I = false) by exact (proj1 (proj2 (proj2 Hnode))).
+  assert (Hml : i_subs NO (dataM NO I) = [] /\ i_managed NO (dataM NO I) = []) by (split; reflexivity).
+  assert (Hms : i_sub NO (dataM NO I) = true) by reflexivity.
+  eapply recalculate_reproducesD with (D := D) (G := G NO I) (M := dataM NO I) (key := key); eassumption.
+Qed.
+
+(* C14: recomputing an index that already holds a reading, addressed from either end, leaves the
+   store as it is *)
+Theorem data_calc_index_reproduces (ds : list cd) st (i : Z) : Forall (fresh_data I) ds ->
+  calculate NO I ds = Ok st -> - zlen st <= i < zlen st -> calculate_index NO I i None st = Ok st.
+Proof.
+  destruct (obligations I key Hnode Hkind) as (D & Hshape & Hrec). intros Hf H Hi.
+  assert (Hc : IsCanonD NO I (dataM NO I) (G NO I) D st).
+  { rewrite (batch_is_canonD NO I (dataM NO I) Hs (G NO I) D Hshape ds Hf) in H.
+    eapply canonD_acc_iscanon; [constructor|exact Hf|exact H]. }
+  eapply calc_index_reproducesD with (D := D) (G := G NO I) (M := dataM NO I); try eassumption;
+    [exact (proj1 (proj2 (proj2 Hnode)))|reflexivity].
+Qed.
+
+(* operation programs on one such indicator; calculate_index is taken right after a calculate()
+   (every reading and every predecessor is then computed - the property's proviso) *)
+Inductive data_reach : store -> list cd -> Prop :=
+| DR_init : data_reach [] []
+| DR_append st ds new st' : data_reach st ds -> Forall (fresh_data I) new -> calculate NO I (st ++ new) = Ok st' -> data_reach st' (ds ++ new)
+| DR_calculate st ds st' : data_reach st ds -> calculate NO I st = Ok st' -> data_reach st' ds
+| DR_purge st ds : data_reach st ds -> data_reach (purge NO I st) ds
+| DR_recalculate st ds st' : data_reach st ds -> calculate NO I (purge NO I st) = Ok st' -> data_reach st' ds
+| DR_calc_index st0 ds st i st' : data_reach st0 ds -> calculate NO I st0 = Ok st -> - zlen st <= i < zlen st ->
+    calculate_index NO I i None st = Ok st' -> data_reach st' ds.
+
+(* after any such program, calculate() gives exactly what one calculate() over all the candles
+   appended so far gives - the same store, or the same exception *)
+Theorem data_programs_converge st ds : data_reach st ds -> calculate NO I st = calculate NO I ds.
+Proof.
+  destruct (obligations I key Hnode Hkind) as (D & Hshape & Hrec). intros HR.
+  assert (Hm : i_managed NO I = [(key, dataM NO I)]) by exact (proj1 (proj2 Hnode)).
+  assert (Ht : i_sub NO I = false) by exact (proj1 (proj2 (proj2 Hnode))).
+  assert (Hml : i_subs NO (dataM NO I) = [] /\ i_managed NO (dataM NO I) = []) by (split; reflexivity).
+  assert (Hms : i_sub NO (dataM NO I) = true) by reflexivity.
+  eapply programs_convergeD with (D := D) (G := G NO I) (M := dataM NO I) (key := key); try eassumption.
+  induction HR as [|st ds new st' _ IH Hnew H|st ds st' _ IH H|st ds _ IH|st ds st' _ IH H|st0 ds st i st' _ IH H0 Hi H].
+  - constructor.
+  - eapply RD_append; eassumption.
+  - eapply RD_calculate; eassumption.
+  - apply RD_purge. exact IH.
+  - eapply RD_recalculate; eassumption.
+  - eapply RD_calc_index; [eapply RD_calculate; [exact IH|exact H0]| |exact Hi|exact H].
+    assert (HJ : JD NO I (dataM NO I) (G NO I) D st0 ds).
+    { eapply reachD_JD with (key := key); eassumption. }
+    destruct HJ as [Hf [E|[Hc0 _]]].
+    + subst st0. rewrite (batch_is_canonD NO I (dataM NO I) Hs (G NO I) D Hshape ds Hf) in H0.
+      eapply canonD_acc_iscanon; [constructor|exact Hf|exact H0].
+    + assert (E : calculate NO I st0 = Ok st0).
+      { eapply calculate_canonD with (D := D) (G := G NO I) (M := dataM NO I); eassumption. }
+      rewrite E in H0. inversion H0; subst. exact Hc0.
+Qed.
+
+(* C07: after k candles are appended to a calculated indicator with two or more candles of
+   history, calculate() - which is the instrumented loop - makes exactly k _calculate_reading
+   invocations, whatever the length of the history *)
+Theorem data_one_reading_per_appended_candle (ds new : list cd) st r : Forall (fresh_data I) ds ->
+  calculate NO I ds = Ok st -> (2 <= List.length st)%nat -> Forall (fresh_data I) new ->
+  calculate NO I (st ++ new) = Ok r ->
+  loop_steps NO I 13 (zrange (Z.of_nat (find_calc_index NO I (st ++ new))) (zlen (st ++ new))) (st ++ new) = Ok (List.length new, r) /\
+  calculate NO I (st ++ new) =
+    ('(_, r') <- loop_steps NO I 13 (zrange (Z.of_nat (find_calc_index NO I (st ++ new))) (zlen (st ++ new))) (st ++ new) ;; Ok r').
+Proof.
+  destruct (obligations I key Hnode Hkind) as (D & Hshape & Hrec). intros Hf H Hl Hnew Hr.
+  assert (Hc : IsCanonD NO I (dataM NO I) (G NO I) D st).
+  { rewrite (batch_is_canonD NO I (dataM NO I) Hs (G NO I) D Hshape ds Hf) in H.
+    eapply canonD_acc_iscanon; [constructor|exact Hf|exact H]. }
+  split.
+  - eapply append_stepsD with (D := D) (G := G NO I) (M := dataM NO I); eassumption.
+  - eapply calculate_is_loop_steps; eassumption.
 Qed.
 End WithNode.
 
